@@ -19,6 +19,10 @@ DRIVERS = ["c12"]
 # every decoration: finding C12-F1).  After applying the fix (guard "if 'char_index' in error_object: return"
 # at the top of ErrorHandler._update_error_with_char_pos) set both to True.
 FIXED = True   # fix: commit 5312cdc is in /repo
+# False = the code as it is: the early return of SidecarValidator.validate (structure / reference error) hands the
+# issues back unsorted (finding C12-F2).  After "return sort_issues(issues)" there, set to True (the model's
+# sidecar_validate takes the flag as its sort_early argument).
+SORT_EARLY = True   # fix: commit 8c0dae9 is in /repo
 
 TRUSTED = [
     "Model/Issues.v is a hand transcription of hed/errors/error_reporter.py (hed_error/hed_tag_error wrappers, "
@@ -45,8 +49,18 @@ ASSUMPTIONS = [
     "(C12_suffix_once_refuted, finding C12-F1) and characterised by C12_suffix_current_shape",
     "C12_validate_errors_only needs severities in {ERROR, WARNING} (guaranteed by the translated table; a "
     "caller-supplied override in between is refuted)",
-    "sidecar / table entry points are checked by the implementation-side oracle only (testing); their per-string "
-    "decoration is the same add_context_and_filter that the model transcribes",
+    "sidecar / table entry points: Model/IssuePaths.v transcribes the decoration call paths (context stack, "
+    "add_context_and_filter / format_error_with_context calls, the gates that depend on issue lists, the final sort) "
+    "as functions of abstract per-string results; theorems hold for all such inputs.  The tie: the implementation is "
+    "run under a call recorder (ErrorHandler methods and phase boundaries wrapped inside the harness process), the "
+    "abstract input is rebuilt from the log and the extracted model must reproduce the decorated, sorted output for "
+    "warnings on and off (fail closed on call sequences the input cannot express)",
+    "the dataset entry point (BidsDataset.validate) is checked by the implementation-side oracle only (testing)",
+    "C12_sidecar_errors_only needs the definition issues (appended without passing the handler's filter) to be errors; "
+    "C12_table_errors_only_gen needs the row gate to give the same verdict on a list and its error subset "
+    "(check_for_any_errors does; 'non-empty' does not: refuted)",
+    "C12_sidecar_output_sorted: the early return of SidecarValidator.validate is unsorted (finding C12-F2, refuted "
+    "witness); full statement proved for sort_early=true",
 ]
 
 SUFFIX_RE = re.compile(r"^(.*)  Problem spans string indexes: (-?\d+), (-?\d+)$", re.S)
@@ -80,6 +94,22 @@ def st():
             by_code.setdefault((r["code"], r["sub"], r["tag"]), []).append(r)
         _state["by_code"] = by_code
     return _state
+
+
+def as_int(v):
+    """python int for int-like context values (numpy integers included), else None."""
+    if isinstance(v, bool):
+        return None
+    if isinstance(v, int):
+        return int(v)
+    if hasattr(v, "item") and not isinstance(v, str):
+        try:
+            iv = v.item()
+            if isinstance(iv, int) and not isinstance(iv, bool):
+                return iv
+        except Exception:  # noqa
+            return None
+    return None
 
 
 def split_suffixes(msg):
@@ -155,10 +185,8 @@ def enc_ctxval(v, hmap):
     from hed.models.hed_string import HedString
     if isinstance(v, HedString):
         return ["h", hmap[id(v)]]
-    if isinstance(v, bool):
-        return ["s", C.cps(str(v))]
-    if isinstance(v, int):
-        return ["i", v]
+    if as_int(v) is not None:
+        return ["i", as_int(v)]
     return ["s", C.cps(str(v))]
 
 
@@ -183,8 +211,8 @@ def canon_issue(issue):
         if k in CKEYS:
             if isinstance(v, HedString):
                 ctx.append([CKEYS[k], ["h", len(v.get_original_hed_string())]])
-            elif isinstance(v, int) and not isinstance(v, bool):
-                ctx.append([CKEYS[k], ["i", v]])
+            elif as_int(v) is not None:
+                ctx.append([CKEYS[k], ["i", as_int(v)]])
             else:
                 ctx.append([CKEYS[k], ["s", str(v)]])
     t = issue.get("source_tag", None)
@@ -340,7 +368,7 @@ def oracle_errors_only(on, off, entry, fails):
         fails.append(["errors-only-is-error-subset", f"{entry}: missing={d1} extra={d2}"[:400], None])
 
 
-def oracle_sorted(issues, entry, fails):
+def oracle_sorted(issues, entry, fails, fid=None):
     """A list returned by a file-level entry point is ordered by file, sidecar column, key, row."""
     ks = []
     for i in issues:
@@ -350,7 +378,7 @@ def oracle_sorted(issues, entry, fails):
     except TypeError:
         ok = True
     if not ok:
-        fails.append(["sorted-by-file-column-key-row", f"{entry}: {ks[:6]}", None])
+        fails.append(["sorted-by-file-column-key-row", f"{entry}: {ks[:6]}", fid])
 
 
 def oracle_export(issues, entry, fails):
@@ -508,29 +536,51 @@ def run_file_case(case):
     out = {"case": case, "fails": [], "model": [], "skip": None, "n_issues": 0, "n_offsets": 0, "f1": 0}
     fails = out["fails"]
     res = {}
+    logs = {}
+    from harness import c12_paths as P
     try:
         for warn in (True, False):
             sc = Sidecar(io.StringIO(json.dumps(case["sidecar"])), name="sc.json")
             eh = ErrorHandler(check_for_warnings=warn)
+            rec = P.Recorder(S["rows"])
             if case["kind"] == "sidecar":
-                iss = sc.validate(sch, name=case["name"], error_handler=eh)
+                with P.recording(rec):
+                    iss = sc.validate(sch, name=case["name"], error_handler=eh)
             else:
                 df = pd.DataFrame(case["rows"], columns=case["columns"])
                 buf = io.StringIO(df.to_csv(sep="\t", index=False))
                 tab = TabularInput(buf, sidecar=sc, name=case["name"])
-                iss = tab.validate(sch, name=case["name"], error_handler=eh)
+                with P.recording(rec):
+                    iss = tab.validate(sch, name=case["name"], error_handler=eh)
             res[warn] = iss
+            logs[warn] = rec
             if eh.error_context:
                 fails.append(["context-balanced", f"{case['kind']}: handler context left non-empty", None])
     except Exception as e:  # noqa -- crashes of file validation are C06/C07/C08's subject
         out["skip"] = f"{type(e).__name__}: {e}"[:200]
         return out
+    # correspondence of the decoration path: the model's entry-point function on the recorded abstract input
+    early = {}
+    for warn in (True, False):
+        rec = logs[warn]
+        early[warn] = case["kind"] == "sidecar" and not any(e[0] == "defs" for e in rec.log)
+        try:
+            if case["kind"] == "sidecar":
+                line = C.to_sx(["sidecar", FIXED, SORT_EARLY, warn, [], P.sidecar_input(rec.log)])
+            else:
+                line = C.to_sx(["table", "errors", FIXED, warn, [], P.table_input(rec.log, rec.extra)])
+            out["model"].append((f"path/{case['kind']}/warn={warn}", line, summarise(res[warn])))
+            out["paths"] = out.get("paths", 0) + 1
+        except P.Unmodelled as e:    # fail closed: a call sequence the model's input cannot express
+            out["unmodelled"] = str(e)
+            out["model"].append((f"path/{case['kind']}/warn={warn}", "(unmodelled)", "exn:unmodelled-call-sequence: " + str(e)))
     for warn, iss in res.items():
         for i in iss:
             oracle_issue(i, f"{case['kind']}/warn={warn}", 1, fails, False)
             out["n_issues"] += 1
             out["n_offsets"] += 1 if "char_index" in i else 0
-        oracle_sorted(iss, f"{case['kind']}/warn={warn}", fails)
+        oracle_sorted(iss, f"{case['kind']}/warn={warn}", fails,
+                      fid="C12-F2" if (early[warn] and not SORT_EARLY) else None)
     oracle_errors_only(res[True], res[False], case["kind"], fails)
     iss = res[True]
     shapes = oracle_export(iss, case["kind"], fails)
@@ -720,8 +770,61 @@ def run_ctx_case(case):
     return out
 
 
+def run_dataset_case(case):
+    """A small BIDS tree validated through BidsDataset.validate (oracle only)."""
+    import csv
+    import shutil as sh
+    from hed.tools.bids.bids_dataset import BidsDataset
+    S = st()
+    out = {"case": case, "fails": [], "model": [], "skip": None, "n_issues": 0, "n_offsets": 0, "f1": 0}
+    fails = out["fails"]
+    root = C.scratch_dir()
+    res = {}
+    try:
+        with open(os.path.join(root, "dataset_description.json"), "w") as f:
+            json.dump({"Name": "t", "BIDSVersion": "1.8.0", "HEDVersion": "8.3.0"}, f)
+        with open(os.path.join(root, "task-x_events.json"), "w") as f:
+            json.dump(case["sidecar"], f)
+        for rel, rows in case["files"].items():
+            pth = os.path.join(root, rel)
+            os.makedirs(os.path.dirname(pth), exist_ok=True)
+            with open(pth, "w", newline="") as f:
+                csv.writer(f, delimiter="\t", lineterminator="\n").writerows(rows)
+        if case.get("sub_sidecar"):
+            with open(os.path.join(root, "sub-01", "sub-01_task-x_events.json"), "w") as f:
+                json.dump(case["sub_sidecar"], f)
+        try:
+            for warn in (True, False):
+                ds = BidsDataset(root, schema=S["schema"])
+                res[warn] = ds.validate(check_for_warnings=warn)
+        except Exception as e:  # noqa -- crashes of dataset assembly / file validation are C16/C07's subject
+            out["skip"] = f"{type(e).__name__}: {e}"[:200]
+            return out
+    finally:
+        sh.rmtree(root, ignore_errors=True)
+    for warn, iss in res.items():
+        for i in iss:
+            oracle_issue(i, f"dataset/warn={warn}", 1, fails, False)
+            out["n_issues"] += 1
+            out["n_offsets"] += 1 if "char_index" in i else 0
+        # per file the issues are sorted; the dataset concatenates the files
+        byfile = {}
+        for i in iss:
+            byfile.setdefault(i.get("ec_filename", ""), []).append(i)
+        for fn, lst in byfile.items():
+            oracle_sorted(lst, f"dataset/{fn}/warn={warn}", fails)
+    oracle_errors_only(res[True], res[False], "dataset", fails)
+    shapes = oracle_export(res[True], "dataset", fails)
+    if shapes is not None and res[True]:
+        out["model"].append(("export/dataset", export_lines(res[True], None),
+                             {"shapes": shapes, "codes": [i["code"] for i in res[True]]}))
+    return out
+
+
 def run_case(case):
     k = case["kind"]
+    if k == "dataset":
+        return run_dataset_case(case)
     if k == "string":
         return run_string_case(case)
     if k in ("sidecar", "table"):
@@ -886,10 +989,66 @@ def gen_sidecar(rng, mostly_valid=True):
     return sc
 
 
+def spoil_sidecar(rng, sc):
+    """Structure / reference faults: blank strings, n/a keys, reserved names, unknown or malformed references."""
+    for _ in range(rng.randint(1, 3)):
+        x = rng.random()
+        cats = [c for c in sc if isinstance(sc[c].get("HED"), dict) and sc[c]["HED"]
+                and all(isinstance(v, str) for v in sc[c]["HED"].values())]
+        if x < 0.25 and cats:
+            c = rng.choice(cats)
+            sc[c]["HED"][rng.choice(["zz", "b", "q"])] = ""
+        elif x < 0.4 and cats:
+            sc[rng.choice(cats)]["HED"]["n/a"] = "Red"
+        elif x < 0.5:
+            sc[rng.choice(["onset", "duration", "HED"])] = {"HED": "Red"}
+        elif x < 0.7 and cats:
+            c = rng.choice(cats)
+            k = rng.choice(list(sc[c]["HED"]))
+            sc[c]["HED"][k] = str(sc[c]["HED"][k]) + rng.choice([", {nocol}", ", {", ", }x{", ", {%s}" % c, ", {val}"])
+        elif x < 0.8:
+            sc["aa_extra"] = {"HED": {"k1": rng.choice(["", "Red, {aa_extra}", "blue"]), "k2": "Green"}}
+        elif x < 0.9:
+            sc["ign"] = {"Description": "x", "Levels": {"HED": "Red"}}
+        else:
+            sc["weird"] = {"HED": rng.choice([{}, {"a": 3}])}
+    return sc
+
+
+def gen_dataset_cases(rng, n):
+    out = []
+    for k in range(n):
+        sc = gen_sidecar(rng, True)
+        sc.pop("ref", None)
+        cols = [c for c in sc if c != "defs"]
+        files = {}
+        for sub in rng.sample(["sub-01", "sub-02", "sub-03"], rng.randint(1, 3)):
+            rows = [["onset", "duration"] + cols + ["HED"]]
+            for r in range(rng.randint(1, 4)):
+                row = [float(r), 0]
+                for c in cols:
+                    h = sc[c]["HED"]
+                    row.append(rng.choice(list(h.keys()) + ["n/a"]) if isinstance(h, dict)
+                               else rng.choice(["abc", "3", "n/a", "x$y"]))
+                row.append(rng.choice(["n/a", "Green", "gre$n", "Blue, Blue", "green", "Notatag", "Red, Red",
+                                       "Red-color/Ext2", "(Onset, Red)"]))
+                rows.append(row)
+            files[f"{sub}/{sub}_task-x_events.tsv"] = rows
+        sub_sc = None
+        if "sub-01/sub-01_task-x_events.tsv" in files and rng.random() < 0.4:
+            sub_sc = {cols[0]: sc[cols[0]]} if cols else None
+        out.append({"kind": "dataset", "sidecar": sc, "sub_sidecar": sub_sc, "files": files,
+                    "seed": rng.randrange(10 ** 6)})
+    return out
+
+
 def gen_file_cases(rng, n_sc, n_tab):
     out = []
     for k in range(n_sc):
-        out.append({"kind": "sidecar", "sidecar": gen_sidecar(rng, rng.random() < 0.5), "rows": None, "columns": None,
+        sc = gen_sidecar(rng, rng.random() < 0.5)
+        if rng.random() < 0.35:
+            sc = spoil_sidecar(rng, sc)
+        out.append({"kind": "sidecar", "sidecar": sc, "rows": None, "columns": None,
                     "name": rng.choice(["sc.json", "a/b_events.json", ""]), "seed": rng.randrange(10 ** 6)})
     for k in range(n_tab):
         sc = gen_sidecar(rng, True)
@@ -1001,6 +1160,21 @@ CORPUS = [
     {"kind": "fmt", "kind_name": "HED_GROUP_EMPTY", "text": "Red-color/Myext, (Blue, Green), ()", "pick": 4, "idx": 0,
      "idx_end": None, "sev": None, "actual": None, "warn": True, "passes": 2},
     {"kind": "ctx", "ops": [["pop"]]},
+    # finding C12-F2 witness: early return of SidecarValidator.validate is unsorted
+    {"kind": "sidecar", "sidecar": {"b": {"HED": {"x": ""}}, "a": {"HED": {"k": "{zz}, Red", "j": "Blue"}}},
+     "rows": None, "columns": None, "name": "sc.json", "seed": 1},
+    # the gate of _run_checks: a warning in the last cell must not skip the row-level checks
+    {"kind": "table", "sidecar": {"cat": {"HED": {"a": "red"}}}, "rows": [["a", "Blue, Blue"]],
+     "columns": ["cat", "HED"], "name": "ev.tsv", "seed": 2},
+    {"kind": "table", "sidecar": {"cat": {"HED": {"a": "Red"}}}, "rows": [["a", "blue, Blue, Blue"]],
+     "columns": ["cat", "HED"], "name": "ev.tsv", "seed": 3},
+    {"kind": "dataset", "seed": 5, "sidecar": {"cat": {"HED": {"a": "red, Blue", "b": "Red-color/Myext"}},
+                                               "val": {"HED": "Label/#, blue"}},
+     "sub_sidecar": {"cat": {"HED": {"a": "Green, Green"}}},
+     "files": {"sub-01/sub-01_task-x_events.tsv": [["onset", "duration", "cat", "val", "HED"],
+                                                   [0.0, 0, "a", "abc", "gre$n"], [1.0, 0, "b", "q", "Red, Red"]],
+               "sub-02/sub-02_task-x_events.tsv": [["onset", "duration", "cat", "val", "HED"],
+                                                   [0.0, 0, "b", "n/a", "green"]]}},
 ]
 
 
@@ -1089,7 +1263,7 @@ def run(tier, seed, res, model_ok=True, proof_ok=True):
 def _run(tier, rng, res, model_ok, proof_ok):
     quick = tier == "quick"
     n_str = 1500 if quick else 14000
-    n_sc, n_tab = (120, 80) if quick else (1200, 800)
+    n_sc, n_tab = (300, 220) if quick else (5000, 4000)
     n_sort = 600 if quick else 6000
     n_fmt = 500 if quick else 5000
     n_ctx = 100 if quick else 1000
@@ -1106,6 +1280,7 @@ def _run(tier, rng, res, model_ok, proof_ok):
                           "flavour": "pair"})
     cases += gen_string_cases(rng, n_str)
     cases += gen_file_cases(rng, n_sc, n_tab)
+    cases += gen_dataset_cases(rng, 80 if quick else 1200)
     cases += gen_sort_cases(rng, n_sort)
     cases += gen_fmt_cases(rng, n_fmt, rows)
     cases += gen_ctx_cases(rng, n_ctx)
@@ -1190,6 +1365,8 @@ def _run(tier, rng, res, model_ok, proof_ok):
         "issues_with_offsets": n_offsets,
         "skipped": dict(skipped),
         "known_finding_cases": f1_cases,
+        "entry_point_paths_through_model": sum(o.get("paths", 0) for o in outs),
+        "entry_point_paths_unmodelled": dict(Counter(o["unmodelled"] for o in outs if o.get("unmodelled"))),
         "disagreements_checked": disagreements,
         "correspondence_cases": corr,
         "registry_wrappers_called": called,
